@@ -2,16 +2,428 @@ import Model.Spawn
 /-! Lemmas about the spawn model (core Lean only). -/
 namespace Spawn
 
-/-- descriptors opened by the attempt according to the record it returns -/
-def opened (c : Cfg) (o : POut) : List Nat :=
-  pipeFds o.status ++ pipeFds o.pipes.pin ++ pipeFds o.pipes.pout ++ pipeFds o.pipes.perr ++ cfgFiles c
-
 def closedBy (calls : List SCall) : List Nat := calls.filterMap (fun c => match c with | .close f => some f | _ => none)
-
 def hasFork (calls : List SCall) : Bool := calls.any (· == .fork)
+def hasWait (calls : List SCall) : Bool := calls.any (· == .waitpid)
+/-- descriptors on which `F_SETFD` with the close-on-exec bit was issued -/
+def cloexecd (calls : List SCall) : List Nat :=
+  calls.filterMap (fun c => match c with | .setfd f fl => if fl % 2 = 1 then some f else none | _ => none)
+/-- descriptors a call touches destructively -/
+def touched (calls : List SCall) : List Nat :=
+  calls.filterMap (fun c => match c with | .close f => some f | .setfd f _ => some f | .dup2 _ d => some d | _ => none)
 
-theorem nul_no_fork (c : Cfg) (h : c.nul = true) (rs : List SResp) : hasFork (parentRun c rs).calls = false := by
+@[simp] theorem closedBy_append (a b : List SCall) : closedBy (a ++ b) = closedBy a ++ closedBy b := by simp [closedBy]
+@[simp] theorem hasFork_append (a b : List SCall) : hasFork (a ++ b) = (hasFork a || hasFork b) := by simp [hasFork]
+@[simp] theorem hasWait_append (a b : List SCall) : hasWait (a ++ b) = (hasWait a || hasWait b) := by simp [hasWait]
+@[simp] theorem cloexecd_append (a b : List SCall) : cloexecd (a ++ b) = cloexecd a ++ cloexecd b := by simp [cloexecd]
+@[simp] theorem touched_append (a b : List SCall) : touched (a ++ b) = touched a ++ touched b := by simp [touched]
+@[simp] theorem closedBy_closeAll (l : List Nat) : closedBy (closeAll l) = l := by
+  induction l with
+  | nil => rfl
+  | cons x xs ih => simp [closeAll, closedBy] at ih ⊢; exact ih
+@[simp] theorem hasFork_closeAll (l : List Nat) : hasFork (closeAll l) = false := by simp [hasFork, closeAll]
+@[simp] theorem hasWait_closeAll (l : List Nat) : hasWait (closeAll l) = false := by simp [hasWait, closeAll]
+@[simp] theorem cloexecd_closeAll (l : List Nat) : cloexecd (closeAll l) = [] := by
+  induction l with
+  | nil => rfl
+  | cons x xs ih => simp [closeAll, cloexecd] at ih ⊢
+@[simp] theorem touched_closeAll (l : List Nat) : touched (closeAll l) = l := by
+  induction l with
+  | nil => rfl
+  | cons x xs ih => simp [closeAll, touched] at ih ⊢; exact ih
+
+/-- `cloexec fd`: only `fcntl` calls on `fd`; success means the close-on-exec bit was set on it -/
+theorem cloexec_spec (fd : Nat) (rs : List SResp) :
+    closedBy (cloexec fd rs).1 = [] ∧ hasFork (cloexec fd rs).1 = false ∧ hasWait (cloexec fd rs).1 = false ∧
+    (∀ f ∈ touched (cloexec fd rs).1, f = fd) ∧
+    ((cloexec fd rs).2.1 = none → cloexecd (cloexec fd rs).1 = [fd]) := by
+  unfold cloexec
+  (repeat' split) <;> simp [closedBy, hasFork, hasWait, touched, cloexecd, FD_CLOEXEC] <;> omega
+
+/-- `streamPipe`: `pipe()` + close-on-exec on the parent's end -/
+theorem streamPipe_spec (pw : Bool) (rs : List SResp) :
+    closedBy (streamPipe pw rs).1 = [] ∧ hasFork (streamPipe pw rs).1 = false ∧ hasWait (streamPipe pw rs).1 = false ∧
+    (∀ f ∈ touched (streamPipe pw rs).1, f ∈ pipeFds (streamPipe pw rs).2.1) ∧
+    ((streamPipe pw rs).2.2.1 = none →
+      ∃ r w, (streamPipe pw rs).2.1 = some (r, w) ∧ cloexecd (streamPipe pw rs).1 = [if pw then w else r]) := by
+  unfold streamPipe
+  split
+  · simp [closedBy, hasFork, hasWait, touched, pipeFds]
+  · simp [closedBy, hasFork, hasWait, touched, pipeFds]
+  · rename_i r w rs'
+    have h := cloexec_spec (if pw then w else r) rs'
+    obtain ⟨h1, h2, h3, h4, h5⟩ := h
+    simp only
+    refine ⟨?_, ?_, ?_, ?_, ?_⟩
+    · simp [closedBy] at h1 ⊢; exact h1
+    · simp [hasFork] at h2 ⊢; exact h2
+    · simp [hasWait] at h3 ⊢; exact h3
+    · intro f hf
+      simp only [touched, List.filterMap_cons] at hf
+      have := h4 f (by simpa [touched] using hf)
+      simp only [pipeFds]; cases pw <;> simp_all
+    · intro he
+      refine ⟨r, w, rfl, ?_⟩
+      have := h5 he
+      simp only [cloexecd, List.filterMap_cons] at this ⊢
+      exact this
+  · simp [closedBy, hasFork, hasWait, touched, pipeFds]
+
+end Spawn
+
+namespace Spawn
+
+/-- invariant of the pre-fork part: nothing closed, no process yet, everything touched is owned,
+    every descriptor obtained is owned, everything recorded as marked had its close-on-exec bit set,
+    and the parent end of every completely set-up stream pipe is marked -/
+structure AInv (c : Cfg) (s : AState) : Prop where
+  noClose : closedBy s.calls = []
+  noFork : hasFork s.calls = false
+  noWait : hasWait s.calls = false
+  touchedOwned : ∀ f ∈ touched s.calls, f ∈ s.owned
+  files : ∀ f ∈ cfgFiles c, f ∈ s.owned
+  gotOwned : ∀ f ∈ s.got, f ∈ s.owned
+  status : ∀ f ∈ pipeFds s.status, f ∈ s.got
+  pin : ∀ f ∈ pipeFds s.pipes.pin, f ∈ s.got
+  pout : ∀ f ∈ pipeFds s.pipes.pout, f ∈ s.got
+  perr : ∀ f ∈ pipeFds s.pipes.perr, f ∈ s.got
+  marked : ∀ f ∈ s.marked, f ∈ cloexecd s.calls
+  mIn : ∀ r w, s.pipes.pin = some (r, w) → w ∈ s.marked
+  mOut : ∀ r w, s.pipes.pout = some (r, w) → r ∈ s.marked
+  mErr : ∀ r w, s.pipes.perr = some (r, w) → r ∈ s.marked
+  ownedFrom : ∀ f ∈ s.owned, f ∈ cfgFiles c ∨ f ∈ s.got
+
+theorem init_ainv (c : Cfg) : AInv c { owned := cfgFiles c } := by
+  constructor <;> simp [closedBy, hasFork, hasWait, touched, pipeFds, cloexecd]
+
+theorem cloexec_stage_ainv (c : Cfg) (s : AState) (fd : Nat) (rs : List SResp) (h : AInv c s) (hfd : fd ∈ s.owned) :
+    AInv c { s with calls := s.calls ++ (cloexec fd rs).1,
+                    marked := s.marked ++ (if (cloexec fd rs).2.1 = none then [fd] else []) } := by
+  obtain ⟨c1, c2, c3, c4, c5⟩ := cloexec_spec fd rs
+  obtain ⟨h1, h2, h3, h4, h5, h6, h7, h8, h9, h10, h11, h12, h13, h14, h15⟩ := h
+  constructor <;> simp only [closedBy_append, hasFork_append, hasWait_append, touched_append, cloexecd_append,
+    List.mem_append, h1, h2, h3, c1, c2, c3, List.append_nil, Bool.or_self] <;> (try assumption)
+  · rintro f (hf | hf)
+    · exact h4 f hf
+    · rw [c4 f hf]; exact hfd
+  · rintro f (hf | hf)
+    · exact Or.inl (h11 f hf)
+    · split at hf
+      · rename_i he; simp only [List.mem_singleton] at hf; subst hf; right; rw [c5 he]; simp
+      · simp at hf
+  · intro r w hp; exact Or.inl (h12 r w hp)
+  · intro r w hp; exact Or.inl (h13 r w hp)
+  · intro r w hp; exact Or.inl (h14 r w hp)
+
+theorem applyStream_ainv (c : Cfg) (i : Nat) (s : AState) (cs : List SCall) (po : Option (Nat × Nat)) (e : Option Nat)
+    (rs1 : List SResp) (h : AInv c s)
+    (p1 : closedBy cs = []) (p2 : hasFork cs = false) (p3 : hasWait cs = false)
+    (p4 : ∀ f ∈ touched cs, f ∈ pipeFds po)
+    (p5 : e = none → ∃ r w, po = some (r, w) ∧ cloexecd cs = [if (i == 0) = true then w else r]) :
+    AInv c (applyStream i s (cs, po, e, rs1)).s := by
+  obtain ⟨h1, h2, h3, h4, h5, h6, h7, h8, h9, h10, h11, h12, h13, h14, h15⟩ := h
+  unfold applyStream
+  constructor <;> simp only [closedBy_append, hasFork_append, hasWait_append, touched_append, cloexecd_append,
+    List.mem_append, h1, h2, h3, p1, p2, p3, List.append_nil, Bool.or_self] <;> (try assumption)
+  · rintro f (hf | hf)
+    · exact Or.inl (h4 f hf)
+    · exact Or.inr (p4 f hf)
+  · intro f hf; exact Or.inl (h5 f hf)
+  · rintro f (hf | hf)
+    · exact Or.inl (h6 f hf)
+    · exact Or.inr hf
+  · intro f hf; exact Or.inl (h7 f hf)
+  · intro f hf
+    split at hf
+    · unfold setPipe at hf; (repeat' split at hf) <;> first | exact Or.inl (h8 f hf) | exact Or.inr hf
+    · exact Or.inl (h8 f hf)
+  · intro f hf
+    split at hf
+    · unfold setPipe at hf; (repeat' split at hf) <;> first | exact Or.inl (h9 f hf) | exact Or.inr hf
+    · exact Or.inl (h9 f hf)
+  · intro f hf
+    split at hf
+    · unfold setPipe at hf; (repeat' split at hf) <;> first | exact Or.inl (h10 f hf) | exact Or.inr hf
+    · exact Or.inl (h10 f hf)
+  · rintro f (hf | hf)
+    · exact Or.inl (h11 f hf)
+    · split at hf
+      · rename_i he
+        obtain ⟨r, w, hpo, hce⟩ := p5 he
+        subst hpo; simp only [List.mem_singleton] at hf
+        right; rw [hce, hf]; simp
+      · simp at hf
+  · intro r w hp
+    split at hp
+    · rename_i he
+      unfold setPipe at hp
+      (repeat' split at hp)
+      · rename_i hi0; simp only at hp; right; simp [he, hp, hi0]
+      · exact Or.inl (h12 r w hp)
+      · exact Or.inl (h12 r w hp)
+    · exact Or.inl (h12 r w hp)
+  · intro r w hp
+    split at hp
+    · rename_i he
+      unfold setPipe at hp
+      (repeat' split at hp)
+      · exact Or.inl (h13 r w hp)
+      · rename_i hi0 hi1; simp only at hp; right
+        have : (i == 0) = false := by simp [hi0]
+        simp [he, hp, this]
+      · exact Or.inl (h13 r w hp)
+    · exact Or.inl (h13 r w hp)
+  · intro r w hp
+    split at hp
+    · rename_i he
+      unfold setPipe at hp
+      (repeat' split at hp)
+      · exact Or.inl (h14 r w hp)
+      · exact Or.inl (h14 r w hp)
+      · rename_i hi0 hi1; simp only at hp; right
+        have : (i == 0) = false := by simp [hi0]
+        simp [he, hp, this]
+    · exact Or.inl (h14 r w hp)
+  · rintro f (hf | hf)
+    · rcases h15 f hf with h | h
+      · exact Or.inl h
+      · exact Or.inr (Or.inl h)
+    · exact Or.inr (Or.inr hf)
+
+theorem ainv_add_quiet (c : Cfg) (s : AState) (cs : List SCall) (h : AInv c s)
+    (p1 : closedBy cs = []) (p2 : hasFork cs = false) (p3 : hasWait cs = false) (p4 : touched cs = []) :
+    AInv c { s with calls := s.calls ++ cs } := by
+  obtain ⟨h1, h2, h3, h4, h5, h6, h7, h8, h9, h10, h11, h12, h13, h14, h15⟩ := h
+  constructor <;> simp only [closedBy_append, hasFork_append, hasWait_append, touched_append, cloexecd_append,
+    List.mem_append, h1, h2, h3, p1, p2, p3, p4, List.append_nil, Bool.or_self] <;> (try assumption)
+  intro f hf; exact Or.inl (h11 f hf)
+
+theorem ainv_status (c : Cfg) (s : AState) (sr sw : Nat) (h : AInv c s) :
+    AInv c { s with calls := s.calls ++ [.pipe], owned := s.owned ++ [sr, sw], got := s.got ++ [sr, sw], status := some (sr, sw) } := by
+  obtain ⟨h1, h2, h3, h4, h5, h6, h7, h8, h9, h10, h11, h12, h13, h14, h15⟩ := h
+  constructor <;> simp only [closedBy_append, hasFork_append, hasWait_append, touched_append, cloexecd_append,
+    List.mem_append, h1, h2, h3, List.append_nil, Bool.or_self] <;> (try assumption)
+  · simp [closedBy]
+  · simp [hasFork]
+  · simp [hasWait]
+  · rintro f (hf | hf)
+    · exact Or.inl (h4 f hf)
+    · simp [touched] at hf
+  · intro f hf; exact Or.inl (h5 f hf)
+  · rintro f (hf | hf)
+    · exact Or.inl (h6 f hf)
+    · exact Or.inr hf
+  · intro f hf; right; simpa [pipeFds] using hf
+  · intro f hf; exact Or.inl (h8 f hf)
+  · intro f hf; exact Or.inl (h9 f hf)
+  · intro f hf; exact Or.inl (h10 f hf)
+  · intro f hf; exact Or.inl (h11 f hf)
+  · rintro f (hf | hf)
+    · rcases h15 f hf with h | h
+      · exact Or.inl h
+      · exact Or.inr (Or.inl h)
+    · exact Or.inr (Or.inr hf)
+
+/-- every step before the fork preserves the invariant, whether it succeeds or fails -/
+theorem acquire_ainv (c : Cfg) (a : Acq) (ha : ∀ (_ : a = .forkStep), False) (s : AState) (rs : List SResp) (h : AInv c s) :
+    AInv c (acquire a s rs).s := by
+  cases a with
+  | statusPipe =>
+    unfold acquire
+    simp only
+    split
+    · exact h
+    · split
+      · exact ainv_add_quiet c s [.pipe] h rfl rfl rfl rfl
+      · exact ainv_add_quiet c s [.pipe] h rfl rfl rfl rfl
+      · exact ainv_status c s _ _ h
+      · exact ainv_add_quiet c s [.pipe] h rfl rfl rfl rfl
+  | cloexecStatusR =>
+    simp only [acquire]
+    split
+    · exact h
+    · rename_i sr sw hs
+      apply cloexec_stage_ainv c s sr rs h
+      exact h.gotOwned _ (h.status _ (by simp [hs, pipeFds]))
+  | cloexecStatusW =>
+    simp only [acquire]
+    split
+    · exact h
+    · rename_i sr sw hs
+      apply cloexec_stage_ainv c s sw rs h
+      exact h.gotOwned _ (h.status _ (by simp [hs, pipeFds]))
+  | check ok r => exact h
+  | streamPipe i =>
+    obtain ⟨p1, p2, p3, p4, p5⟩ := streamPipe_spec (i == 0) rs
+    simp only [acquire]
+    generalize streamPipe (i == 0) rs = o at p1 p2 p3 p4 p5 ⊢
+    obtain ⟨cs, po, e, rs1⟩ := o
+    simp only at p1 p2 p3 p4 p5
+    exact applyStream_ainv c i s cs po e rs1 h p1 p2 p3 p4 p5
+  | forkStep => exact absurd rfl (fun h => ha h)
+
+end Spawn
+
+namespace Spawn
+
+/-- stream pipes exist only for streams configured as `Pipe` -/
+def PipesOK (c : Cfg) (s : AState) : Prop :=
+  (s.pipes.pin ≠ none → c.sin = .pipe) ∧ (s.pipes.pout ≠ none → c.sout = .pipe) ∧ (s.pipes.perr ≠ none → c.serr = .pipe)
+
+def StageOK (c : Cfg) (a : Acq) : Prop :=
+  a ≠ .forkStep ∧ ∀ i, a = .streamPipe i → (i = 0 ∧ c.sin = .pipe) ∨ (i = 1 ∧ c.sout = .pipe) ∨ (i = 2 ∧ c.serr = .pipe)
+
+theorem acquire_pipesOK (c : Cfg) (a : Acq) (ha : StageOK c a) (s : AState) (rs : List SResp) (h : PipesOK c s) :
+    PipesOK c (acquire a s rs).s := by
+  cases a with
+  | statusPipe => simp only [acquire]; (repeat' split) <;> exact h
+  | cloexecStatusR => simp only [acquire]; split <;> exact h
+  | cloexecStatusW => simp only [acquire]; split <;> exact h
+  | check ok r => exact h
+  | forkStep => exact absurd rfl ha.1
+  | streamPipe i =>
+    simp only [acquire, applyStream]
+    rcases ha.2 i rfl with ⟨rfl, hc⟩ | ⟨rfl, hc⟩ | ⟨rfl, hc⟩ <;>
+      (unfold PipesOK at *; split <;> simp_all [setPipe])
+
+theorem stagesOf_pre (c : Cfg) : ∃ pre, stagesOf c = pre ++ [.forkStep] ∧ (∀ a ∈ pre, StageOK c a) ∧
+    (c.nul = true → Acq.check false (.err EINVAL) ∈ pre) ∧
+    ((c.sin = .merge ∨ (c.sout = .merge ∧ c.serr = .merge)) → Acq.check false .logic ∈ pre) := by
+  refine ⟨[.statusPipe, .cloexecStatusR, .cloexecStatusW,
+     .check (!(c.sout = .merge && c.serr = .merge)) .logic, .check (!(c.sin = .merge)) .logic] ++
+    (if c.sin = .pipe then [.streamPipe 0] else []) ++ (if c.sout = .pipe then [.streamPipe 1] else []) ++
+    (if c.serr = .pipe then [.streamPipe 2] else []) ++ [.check (!c.nul) (.err EINVAL)], by simp [stagesOf], ?_, ?_, ?_⟩
+  · intro a ha
+    simp only [List.mem_append, List.mem_cons, List.not_mem_nil, or_false, List.mem_ite_nil_right, List.mem_singleton] at ha
+    rcases ha with ((((rfl | rfl | rfl | rfl | rfl) | ⟨h, rfl⟩) | ⟨h, rfl⟩) | ⟨h, rfl⟩) | rfl <;>
+      (refine ⟨by simp, ?_⟩; intro i hi; simp at hi; try (subst hi; simp_all))
+  · intro hn; simp [hn]
+  · rintro (h | ⟨h1, h2⟩)
+    · simp [h]
+    · simp [h1, h2]
+
+/-- running a list of pre-fork steps: the invariants hold in the final state -/
+theorem acquireAll_inv (c : Cfg) (l : List Acq) (hl : ∀ a ∈ l, StageOK c a) (s : AState) (rs : List SResp)
+    (h : AInv c s) (hp : PipesOK c s) :
+    AInv c (acquireAll l s rs).s ∧ PipesOK c (acquireAll l s rs).s := by
+  induction l generalizing s rs with
+  | nil => exact ⟨h, hp⟩
+  | cons a as ih =>
+    have ha := hl a (by simp)
+    have h1 := acquire_ainv c a (fun e => ha.1 e) s rs h
+    have h2 := acquire_pipesOK c a ha s rs hp
+    simp only [acquireAll]
+    split
+    · exact ⟨h1, h2⟩
+    · exact ih (fun b hb => hl b (by simp [hb])) _ _ h1 h2
+
+/-- a failing `check` stops the run -/
+theorem acquireAll_check_fails (l : List Acq) (r : Res) (hm : Acq.check false r ∈ l) (s : AState) (rs : List SResp) :
+    (acquireAll l s rs).fail ≠ none := by
+  induction l generalizing s rs with
+  | nil => simp at hm
+  | cons a as ih =>
+    simp only [acquireAll]
+    split
+    · simp
+    · rename_i hnone
+      simp only [List.mem_cons] at hm
+      rcases hm with rfl | hm
+      · simp [acquire] at hnone
+      · exact ih hm _ _
+
+theorem acquireAll_append_fail (l1 l2 : List Acq) (s : AState) (rs : List SResp) (r : Res)
+    (h : (acquireAll l1 s rs).fail = some r) : acquireAll (l1 ++ l2) s rs = acquireAll l1 s rs := by
+  induction l1 generalizing s rs with
+  | nil => simp [acquireAll] at h
+  | cons a as ih =>
+    simp only [List.cons_append, acquireAll] at h ⊢
+    split at h
+    · rfl
+    · exact ih _ _ h
+
+theorem acquireAll_append_ok (l1 l2 : List Acq) (s : AState) (rs : List SResp)
+    (h : (acquireAll l1 s rs).fail = none) :
+    acquireAll (l1 ++ l2) s rs = acquireAll l2 (acquireAll l1 s rs).s (acquireAll l1 s rs).rest := by
+  induction l1 generalizing s rs with
+  | nil => simp [acquireAll]
+  | cons a as ih =>
+    simp only [List.cons_append, acquireAll] at h ⊢
+    split at h
+    · simp at h
+    · exact ih _ _ h
+
+end Spawn
+
+namespace Spawn
+
+def s0 (c : Cfg) : AState := { owned := cfgFiles c }
+
+theorem forkStep_state (s : AState) (rs : List SResp) :
+    (acquireAll [.forkStep] s rs).s = { s with calls := s.calls ++ [.fork] } := by
+  simp only [acquireAll, acquire]
+  cases rs with
+  | nil => rfl
+  | cons r rs => cases r <;> rfl
+
+/-- the state in which the pre-fork part of `parentRun` ends (failed or not), and what is known
+    about it: everything obtained is owned, nothing has been closed or waited for, everything
+    touched is owned, marks are real, pipes exist only for `Pipe` streams -/
+theorem prefork_facts (c : Cfg) (rs : List SResp) :
+    let A := acquireAll (stagesOf c) (s0 c) rs
+    closedBy A.s.calls = [] ∧ hasWait A.s.calls = false ∧
+    (∀ f ∈ touched A.s.calls, f ∈ A.s.owned) ∧ (∀ f ∈ cfgFiles c, f ∈ A.s.owned) ∧ (∀ f ∈ A.s.got, f ∈ A.s.owned) ∧
+    (∀ f ∈ pipeFds A.s.status, f ∈ A.s.got) ∧
+    (∀ f ∈ A.s.marked, f ∈ cloexecd A.s.calls) ∧
+    (∀ r w, A.s.pipes.pin = some (r, w) → w ∈ A.s.marked) ∧ (∀ r w, A.s.pipes.pout = some (r, w) → r ∈ A.s.marked) ∧
+    (∀ r w, A.s.pipes.perr = some (r, w) → r ∈ A.s.marked) ∧ PipesOK c A.s ∧
+    ((c.nul = true ∨ c.sin = .merge ∨ (c.sout = .merge ∧ c.serr = .merge)) → A.fail ≠ none ∧ hasFork A.s.calls = false) ∧
+    (∀ f ∈ A.s.owned, f ∈ cfgFiles c ∨ f ∈ A.s.got) := by
+  intro A
+  obtain ⟨pre, hst, hok, hnul, hinv⟩ := stagesOf_pre c
+  have hB := acquireAll_inv c pre hok (s0 c) rs (init_ainv c) (by simp [PipesOK, s0])
+  cases hf : (acquireAll pre (s0 c) rs).fail with
+  | some r =>
+    have hA : A = acquireAll pre (s0 c) rs := by
+      show acquireAll (stagesOf c) (s0 c) rs = _
+      rw [hst]; exact acquireAll_append_fail pre _ _ _ r hf
+    obtain ⟨⟨h1, h2, h3, h4, h5, h6, h7, h8, h9, h10, h11, h12, h13, h14, h15⟩, hp⟩ := hB
+    rw [hA]
+    refine ⟨h1, h3, h4, h5, h6, h7, h11, h12, h13, h14, hp, fun _ => ⟨by rw [hf]; simp, h2⟩, h15⟩
+  | none =>
+    have hA : A = acquireAll [.forkStep] (acquireAll pre (s0 c) rs).s (acquireAll pre (s0 c) rs).rest := by
+      show acquireAll (stagesOf c) (s0 c) rs = _
+      rw [hst]; exact acquireAll_append_ok pre _ _ _ hf
+    obtain ⟨⟨h1, h2, h3, h4, h5, h6, h7, h8, h9, h10, h11, h12, h13, h14, h15⟩, hp⟩ := hB
+    have hs := forkStep_state (acquireAll pre (s0 c) rs).s (acquireAll pre (s0 c) rs).rest
+    rw [hA, hs]
+    refine ⟨by rw [closedBy_append, h1]; rfl, by rw [hasWait_append, h3]; rfl, ?_, h5, h6, h7, ?_, h12, h13, h14, hp, ?_, h15⟩
+    · intro f hf'; simp only [touched_append, List.mem_append] at hf'
+      rcases hf' with hf' | hf'
+      · exact h4 f hf'
+      · simp [touched] at hf'
+    · intro f hf'; simp only [cloexecd_append, List.mem_append]; exact Or.inl (h11 f hf')
+    · intro hbad
+      exfalso
+      rcases hbad with hn | hm
+      · exact acquireAll_check_fails pre _ (hnul hn) _ _ hf
+      · exact acquireAll_check_fails pre _ (hinv hm) _ _ hf
+
+theorem parentRun_fail (c : Cfg) (rs : List SResp) (ha : c.argvEmpty = false) (r : Res)
+    (hf : (acquireAll (stagesOf c) (s0 c) rs).fail = some r) :
+    (parentRun c rs).calls = (acquireAll (stagesOf c) (s0 c) rs).s.calls ++ closeAll (acquireAll (stagesOf c) (s0 c) rs).s.owned ∧
+    (parentRun c rs).res = r := by
   unfold parentRun
-  sorry
+  simp only [ha, Bool.false_eq_true, if_false]
+  have : (acquireAll (stagesOf c) { owned := cfgFiles c } rs).fail = some r := hf
+  simp [this, s0]
+
+theorem parentRun_ok (c : Cfg) (rs : List SResp) (ha : c.argvEmpty = false)
+    (hf : (acquireAll (stagesOf c) (s0 c) rs).fail = none) :
+    parentRun c rs = afterFork c (acquireAll (stagesOf c) (s0 c) rs).s (acquireAll (stagesOf c) (s0 c) rs).rest := by
+  unfold parentRun
+  simp only [ha, Bool.false_eq_true, if_false]
+  have : (acquireAll (stagesOf c) { owned := cfgFiles c } rs).fail = none := hf
+  simp [this, s0]
 
 end Spawn
